@@ -206,6 +206,22 @@ def run_case_c07(acc, c, replaying=False):
         acc.evaluations += 1
         if got != go:
             acc.violation(V("mc1_order", f"after config_from_dict: entry order {got}, reference order {go}", via="config"), c, (), res.trace, p.source())
+    # ---- a SECOND reconfiguration, naming only some nodes (every node keeps the priority it has unless named)
+    if len(ids) >= 2:
+        for part in ([len(ids) - 1], [0], [i for i in range(len(ids)) if i % 2 == 0]):
+            cur = list(newp)
+            for i in part:
+                cur[i] = cur[i] + 3
+            d.config_from_dict({"nodes": {ids[i]: {"priority": cur[i]} for i in part}})
+            acc.evaluations += 1
+            compare(acc, c, f"after a second, partial config_from_dict (nodes {[ids[i] for i in part]})", dict(d.graph_ids.compound_priority), ref_table(p, cur))
+            newp = cur
+        go = greedy_order(p, n_all, newp)
+        if go is not None and len(go) > 1:
+            got, res = entry_order(d, p, None)
+            acc.evaluations += 1
+            if got != go:
+                acc.violation(V("mc1_order", f"after partial reconfigurations: entry order {got}, reference order {go}", via="config2"), c, (), res.trace, p.source())
     # non-trivial: some node has a descendant reachable by two paths, or a frontier holds a node and its parent
     multi = any(len([1 for a in p.succ(i) for _ in [0] if j in p.desc(a) or j == a]) >= 2 for i in range(len(ids)) for j in p.desc(i))
     if multi:
